@@ -653,3 +653,106 @@ Proof.
   specialize (H Hi n Hn). unfold kof in H. rewrite Hx in H. destruct H as [H|H]; [by destruct (v n)|].
   by destruct (v n), (w n).
 Qed.
+
+(* ---------- the gadget structure, with the returned mapping as companion function, and the exact input set ---------- *)
+(* comp_ok only looks at the companion function on n and on the fan-in of n *)
+Lemma node_is_iff T k g (fi fi' : gset string) : fi = fi' → node_is T k g fi → node_is T k g fi'.
+Proof. by intros ->. Qed.
+Lemma set_map_cong (m m' : string → string) (fi : gset string) : (∀ p, p ∈ fi → m p = m' p) →
+  (set_map m fi : gset string) = set_map m' fi.
+Proof.
+  intros H. apply set_eq. intros x. rewrite !elem_of_map. split; intros (p & -> & Hp); exists p; split; auto.
+  - by rewrite H.
+Qed.
+Lemma ctl_gadget_cong T (m m' : string → string) (lit lit' : string → string → Prop) n (fi : gset string) :
+  m n = m' n → (∀ p, p ∈ fi → m p = m' p) → (∀ h p, p ∈ fi → lit h p → lit' h p) →
+  ctl_gadget T m lit n fi → ctl_gadget T m' lit' n fi.
+Proof.
+  intros Hn Hfi Hl (Hty & x & Hx & z & Hz & Hf & Hxn & Hzt & Hall & Hex). unfold ctl_gadget. rewrite <- Hn.
+  split; [done|]. exists x. split; [done|]. exists z. split; [done|]. split; [done|].
+  split; [by rewrite <- (set_map_cong m m' fi Hfi)|]. split; [done|]. split.
+  - intros h Hh. destruct (Hall h Hh) as (p & Hp & Hlit). exists p. split; [done|]. by apply Hl.
+  - intros p Hp. destruct (Hex p Hp) as (h & Hh & Hlit). exists h. split; [done|]. by apply Hl.
+Qed.
+Lemma comp_ok_cong T (m m' : string → string) n i : m n = m' n → (∀ p, p ∈ n_fi i → m p = m' p) →
+  comp_ok T m n i → comp_ok T m' n i.
+Proof.
+  intros Hn Hfi. unfold comp_ok.
+  assert (H0 : ∀ h p, p ∈ n_fi i → lit0 T m h p → lit0 T m' h p).
+  { intros h p Hp. unfold lit0. by rewrite (Hfi p Hp). }
+  assert (H1 : ∀ h p, p ∈ n_fi i → lit1 T m h p → lit1 T m' h p).
+  { intros h p Hp. unfold lit1. by rewrite (Hfi p Hp). }
+  destruct (n_ty i); try done; rewrite <- ?Hn.
+  - intros (p & Hp & Hf & Hnode). exists p. split; [done|]. split; [done|]. by rewrite <- (Hfi p Hp).
+  - by apply ctl_gadget_cong.
+  - by apply ctl_gadget_cong.
+  - intros [? ?]. split; [done|]. by rewrite <- (set_map_cong m m' _ Hfi).
+  - intros (p & Hp & Hf & Hnode). exists p. split; [done|]. split; [done|]. by rewrite <- (Hfi p Hp).
+  - by apply ctl_gadget_cong.
+  - by apply ctl_gadget_cong.
+  - intros [? ?]. split; [done|]. by rewrite <- (set_map_cong m m' _ Hfi).
+  - done.
+  - done.
+  - done.
+Qed.
+
+Lemma mu_at_mapping c n : n ∈ dom c → mu_at (mapping c) n = mu_name c n.
+Proof. intros Hn. unfold mu_at. by rewrite (proj2 (lookup_mapping c n (mu_name c n)) (conj Hn eq_refl)). Qed.
+
+Lemma comp_ok_input T m n i j : comp_ok T m n i → T !! m n = Some j → n_ty j = Input → n_ty i = Input.
+Proof.
+  unfold comp_ok. intros Hc Hj Hin.
+  assert (Hty : ∀ g, ty T (m n) = Some g → g = Input) by (intros g; unfold ty; rewrite Hj; simpl; congruence).
+  destruct (n_ty i); try done.
+  - destruct Hc as (p & _ & _ & [H _]). by apply Hty in H.
+  - destruct Hc as [H _]. by apply Hty in H.
+  - destruct Hc as [H _]. by apply Hty in H.
+  - destruct Hc as [_ [H _]]. by apply Hty in H.
+  - destruct Hc as (p & _ & _ & [H _]). by apply Hty in H.
+  - destruct Hc as [H _]. by apply Hty in H.
+  - destruct Hc as [H _]. by apply Hty in H.
+  - destruct Hc as [_ [H _]]. by apply Hty in H.
+  - destruct Hc as [H _]. by apply Hty in H.
+  - destruct Hc as [H _]. by apply Hty in H.
+Qed.
+
+Theorem model_shape C nodes fo R μ : lint_clean C → closed (c_g C) → ternary C nodes fo = Ok (R, μ) →
+  tern_shape (c_g C) (c_g R) μ.
+Proof.
+  intros Hl Hcl H. unfold ternary in H. rewrite gen_ttab_ok in H.
+  apply ternary_ok_inv in H as (Hb & Ho & -> & _ & _ & Hrun).
+  destruct (lint_facts C Hl Hb) as [Hnd Har]. set (c := c_g C) in *.
+  unfold orders_ok in Ho. apply andb_true_iff in Ho as [Ho Hfo]. apply andb_true_iff in Ho as [Hnodup Hset].
+  apply bool_decide_eq_true in Hnodup, Hset.
+  assert (Hin : ∀ n, n ∈ dom c → n ∈ nodes) by (intros n Hn; rewrite <- Hset in Hn; by apply elem_of_list_to_set in Hn).
+  assert (Hnodes : ∀ n i, c !! n = Some i → list_to_set (fo n) = n_fi i ∧ (∀ p, p ∈ n_fi i → p ∈ dom c) ∧ arity_ok i).
+  { intros n i Hi. split; [|split; [intros p Hp; eapply Hcl; eauto|by eapply Har]].
+    rewrite forallb_forall in Hfo. assert (n ∈ nodes) as Hn%elem_of_list_In by (apply Hin, elem_of_dom; eauto).
+    specialize (Hfo n Hn). apply andb_true_iff in Hfo as [_ Hf]. apply bool_decide_eq_true in Hf.
+    rewrite Hf. unfold fanin. by rewrite Hi. }
+  assert (Hall : ∀ n, n ∈ nodes → n ∈ dom c ∧ n ∉ ([] : list string)).
+  { intros n Hn. split; [rewrite <- Hset; by apply elem_of_list_to_set|apply not_elem_of_nil]. }
+  destruct (inv_run c fo Hnd Hnodes nodes c [] (c_g R) (inv_init c) Hnodup Hall Hrun) as (HA & HB & _ & HD).
+  assert (HB' : ∀ n i, c !! n = Some i → comp_ok (c_g R) (mu_name c) n i).
+  { intros n i Hi. apply HB; [|done]. rewrite app_nil_r. apply elem_of_list_In. apply (proj1 (in_rev nodes n)). apply elem_of_list_In.
+    apply Hin, elem_of_dom. eauto. }
+  split; [apply dom_mapping|]. split.
+  - intros n i Hi. split; [by apply HA|].
+    apply (comp_ok_cong (c_g R) (mu_name c) (mu_at (mapping c)) n i); [| |by apply HB'].
+    + symmetry. apply mu_at_mapping, elem_of_dom. eauto.
+    + intros p Hp. symmetry. apply mu_at_mapping. eapply Hcl; eauto.
+  - apply set_eq. intros k. rewrite elem_of_union, elem_of_map. split.
+    + intros (j & Hj & Hty)%elem_of_inputs.
+      destruct (HD k j Hj) as [Hk|[(n & Hn & -> & Hor)|Hh]].
+      * left. apply elem_of_dom in Hk as [i Hi]. apply elem_of_inputs. exists i. split; [done|]. rewrite (HA k i Hi) in Hj. congruence.
+      * right. exists n. split; [symmetry; by apply mu_at_mapping|].
+        destruct Hor as [_ | ->]; [|done]. apply elem_of_dom in Hn as [i Hi]. apply elem_of_inputs. exists i. split; [done|].
+        eapply comp_ok_input; eauto.
+      * destruct Hh as (_ & _ & _ & _ & [E|[E|[E|[E _]]]]); congruence.
+    + intros [(i & Hi & Hty)%elem_of_inputs|(n & -> & (i & Hi & Hty)%elem_of_inputs)].
+      * apply elem_of_inputs. exists i. split; [by apply HA|done].
+      * rewrite mu_at_mapping by (apply elem_of_dom; eauto).
+        pose proof (HB' n i Hi) as Hc. unfold comp_ok in Hc. rewrite Hty in Hc. destruct Hc as [H1 _].
+        unfold ty in H1. destruct (c_g R !! mu_name c n) as [j|] eqn:E; [|done]. simpl in H1.
+        apply elem_of_inputs. exists j. split; [done|congruence].
+Qed.
